@@ -146,6 +146,11 @@ def _wrap_public(name, post):
     def f(a, b):
         return post(a, b, orig(a, b))
     setattr(G, name, f)
+    # the .intersection()/.distance()/.angle() methods import the same public function from its module at call time
+    import sys
+    m = sys.modules.get('Geometry3D.calc.' + name)
+    if m is not None and getattr(m, name, None) is orig:
+        setattr(m, name, f)
 
 
 def _twin_touching_segments():
